@@ -259,3 +259,15 @@ package keeper
 //@   step[C06.gvp.active] len(ret) == len(prev_ret) + 1 && !isnil(res_GetOperatorOptedUSDValue_0.ActiveUSDValue) &&
 //@        ret[len(prev_ret)] == wraps(chop_trunc(val(res_GetOperatorOptedUSDValue_0.ActiveUSDValue)), 18446744073709551616) &&
 //@        forall(i, 0, len(prev_ret), ret[i] == prev_ret[i])
+
+// C05/C20 (an operator takes part in an AVS only with at least the AVS's minimum SELF delegation): the opt-in record is
+// written, and the operator's USD value row initialised, only on a path on which the operator's own (self) USD value
+// has been compared with the minimum self delegation of that AVS and found sufficient.
+//@ func (*Keeper).OptIn
+//@   flag noframe
+//@   flag pure=IsOperator,IsAVS,IsOptedIn,GetOrCalculateOperatorUSDValues,GetAVSMinimumSelfDelegation,IsOperatorFrozen,GetAVSSlashContract
+//@   flag havoc=InitOperatorUSDValue,SetOptedInfo
+//@   before[C05.oi.minself,C20.oi.minself] InitOperatorUSDValue requires !isnil(res_GetOrCalculateOperatorUSDValues_0.SelfUSDValue) && !isnil(res_GetAVSMinimumSelfDelegation_0) &&
+//@        val(res_GetOrCalculateOperatorUSDValues_0.SelfUSDValue) >= val(res_GetAVSMinimumSelfDelegation_0) && arg_avsAddr == avsAddr
+//@   before[C05.oi.minself,C20.oi.minself] SetOptedInfo requires val(res_GetOrCalculateOperatorUSDValues_0.SelfUSDValue) >= val(res_GetAVSMinimumSelfDelegation_0) &&
+//@        arg_avsAddr == avsAddr && arg_operatorAddr == accstr(operatorAddress)
